@@ -59,18 +59,28 @@ _MODE_TESTS = {'stat.S_ISDIR': 'dir', 'stat.S_ISREG': 'file',
                'stat.S_ISLNK': 'link'}
 
 
-def _fs_model(inner):
+KIND_BEFORE = T('sym', 'path_kind_before_the_call')
+
+
+def _fs_model(inner, holder=None, acting=()):
     """on_call hook answering stat-family questions about ``path`` from
-    KIND; everything else goes to *inner*."""
+    KIND; everything else goes to *inner*.  Questions asked before the
+    acting call (makedirs / remove) are answered from KIND_BEFORE: what the
+    path names may change in between (the call itself, another process)."""
     def hook(interp, name, f, args, kwargs):
+        if name in acting and holder is not None:
+            holder['acted'] = True
+        kind = KIND
+        if acting and holder is not None and not holder.get('acted'):
+            kind = KIND_BEFORE
         if name in _FS_CALLS:
-            t = T('fs', name, KIND)
+            t = T('fs', name, kind)
             interp.types[t] = 'bool'
             return t
         if name in ('os.stat', 'os.lstat'):
             follow = name == 'os.stat' and \
                 kwargs.get('follow_symlinks', K(True)) != K(False)
-            return Obj(None, {'st_mode': T('fs', 'mode', K(follow), KIND)},
+            return Obj(None, {'st_mode': T('fs', 'mode', K(follow), kind)},
                        label='stat_result')
         if name in _MODE_TESTS and args:
             t = T('fs', name, interp.termify(args[0]))
@@ -83,10 +93,10 @@ def _fs_model(inner):
 def _fs_hook(v, val):
     if isinstance(v, T) and v.op == 'fs':
         if v.args[0] in _FS_CALLS:
-            return _FS_CALLS[v.args[0]](val[KIND])
+            return _FS_CALLS[v.args[0]](val[v.args[1]])
         if v.args[0] == 'mode':
             table = _FOLLOW if v.args[1].v else _NOFOLLOW
-            return ('mode', table[val[KIND]])
+            return ('mode', table[val[v.args[2]]])
         if v.args[0] in _MODE_TESTS:
             m = ev(v.args[1], val, [_fs_hook])
             return isinstance(m, tuple) and m[1] == _MODE_TESTS[v.args[0]]
@@ -143,7 +153,8 @@ def _ensure_tree(ctx):
         return interp.call(f, [T('sym', 'path')])
 
     def setup(interp):
-        interp.on_call = _fs_model(_failing({'os.makedirs'}, holder))
+        interp.on_call = _fs_model(_failing({'os.makedirs'}, holder),
+                                   holder, acting=('os.makedirs',))
 
     outcomes, _i = extract(world, thunk, setup=setup)
 
@@ -156,8 +167,9 @@ def _ensure_tree(ctx):
         return ('raise', 'OSError')
     grid_compare(rep, 'R20.1', 'ensure_tree', 'os.makedirs outcome x errno '
                  'x what the path names', outcomes,
-                 {RAISES: (False, True), ERRNO: ERRNOS, KIND: KINDS}, oracle,
-                 hooks=[_fs_hook])
+                 {RAISES: (False, True), ERRNO: ERRNOS, KIND: KINDS,
+                  KIND_BEFORE: ('nothing', 'directory', 'regular file')},
+                 oracle, hooks=[_fs_hook])
     _same_exception(rep, 'R20.1', 'ensure_tree', outcomes)
     for o in outcomes:
         mk = o.calls('os.makedirs')
@@ -191,7 +203,8 @@ def _delete_if_exists(ctx):
             return interp.call(f, [T('sym', 'path')])
 
         def setup(interp):
-            interp.on_call = _failing({'os.unlink', 'os.remove'}, holder)
+            interp.on_call = _fs_model(
+                _failing({'os.unlink', 'os.remove'}, holder))
 
         outcomes, _i = extract(world, thunk, setup=setup)
 
@@ -200,8 +213,10 @@ def _delete_if_exists(ctx):
                 return ('raise', 'OSError')
             return ('return', None)
         key = 'delete_if_exists[%s]' % variant
-        grid_compare(rep, 'R20.1', key, 'remove outcome x errno', outcomes,
-                     {RAISES: (False, True), ERRNO: ERRNOS}, oracle)
+        grid_compare(rep, 'R20.1', key, 'remove outcome x errno x what the '
+                     'path names', outcomes,
+                     {RAISES: (False, True), ERRNO: ERRNOS, KIND: KINDS},
+                     oracle, hooks=[_fs_hook])
         _same_exception(rep, 'R20.1', key, outcomes)
         for o in outcomes:
             calls = [c for c in o.effects if c[0] == 'call' and
